@@ -227,7 +227,7 @@ pub fn reachable(a: &AMod) -> (BTreeSet<u32>, BTreeSet<u32>, BTreeSet<u32>, BTre
     while let Some((k, i)) = todo.pop() {
         let fresh = match k { 0 => f.insert(i), 1 => t.insert(i), 2 => m.insert(i), 3 => g.insert(i), 5 => d.insert(i), _ => e.insert(i) }; if !fresh { continue; }
         match k {
-            0 => if i >= nf { if let Some(b) = a.code.get((i - nf) as usize) { for o in &b.ops { let args = crate::ops::op_args(o.2); if let Some(term) = &o.0 {
+            0 => if i >= nf { if let Some(b) = a.code.get((i - nf) as usize) { let live = crate::body::live_mask(&b.ops); for (ok, o) in b.ops.iter().enumerate() { if !live[ok] { continue; } let args = crate::ops::op_args(o.2); if let Some(term) = &o.0 {
                 // index immediates by argument name
                 let toks: Vec<&str> = term.trim_start_matches("WOp (").trim_end_matches(')').split_whitespace().collect(); let mut pos = 1;
                 for (an, at) in &args { if at.ends_with("MemArg") { if let Some(p) = term.find("wa_memory := ") { if let Ok(x) = term[p + 13..].split(|c: char| !c.is_ascii_digit()).next().unwrap_or("").parse() { todo.push((2, x)); } } pos += 9; continue; }
@@ -249,7 +249,8 @@ pub fn gc(name: &str, wasm: &[u8], out: &mut Vec<Json>) {
     let a = match amod::decode(wasm) { Ok(a) => a, Err(_) => return };
     let r = catch(|| { let mut m = Module::from_buffer(wasm).ok()?; passes::gc::run(&mut m); let o1 = m.emit_wasm(); passes::gc::run(&mut m); let o2 = m.emit_wasm(); Some((o1, o2)) });
     let (o1, o2) = match r { Some(Some(x)) => x, Some(None) => return, None => { out.push(v("gc-panics", "C06 C02", format!("{}: gc + emit panics", name), wasm, String::new(), String::new())); return; } };
-    if let Err(e) = amod::validate(&o1, feats) { out.push(v("gc-output-invalid", "C06 C02", format!("{}: module is invalid after gc: {}", name, e), wasm, crate::c03::hex(&o1), String::new())); }
+    if let Err(e) = amod::validate(&o1, feats) { let class = if e.contains("undeclared function reference") { "gc-output-invalid:undeclared-function-reference" } else { "gc-output-invalid" };
+        out.push(v(class, "C06 C02", format!("{}: module is invalid after gc: {}", name, e), wasm, crate::c03::hex(&o1), String::new())); }
     let b = match amod::decode(&o1) { Ok(b) => b, Err(_) => return };
     if a.exports.iter().map(|e| (&e.0, e.1)).collect::<Vec<_>>() != b.exports.iter().map(|e| (&e.0, e.1)).collect::<Vec<_>>() { out.push(v("gc-changes-exports", "C06", format!("{}: exports differ after gc", name), wasm, format!("{:?}", b.exports), format!("{:?}", a.exports))); }
     // idempotence: a second run changes nothing (customs are compared by C12)
@@ -278,7 +279,7 @@ pub fn all_module_oracles(name: &str, wasm: &[u8], out: &mut Vec<Json>) {
     let mut mcfg = ModuleConfig::new(); mcfg.generate_producers_section(false);
     match catch(|| observe(wasm, &mut mcfg)) {
         Some(Ok(obs)) => { structure(name, wasm, &obs, out); index_maps(name, wasm, &obs, out); names(name, wasm, &obs, out); features(name, wasm, &obs.out, out); }
-        Some(Err(e)) => out.push(v("walrus-rejects-valid-module", "C05", format!("{}: {}", name, e), wasm, String::new(), String::new())),
+        Some(Err(e)) => if e.starts_with("parse:") { out.push(v("walrus-rejects-valid-module", "C05", format!("{}: {}", name, e), wasm, String::new(), String::new())) } else { out.push(v("output-undecodable", "C02", format!("{}: emitted module cannot be decoded: {}", name, e), wasm, String::new(), String::new())) },
         None => out.push(v("walrus-panics-on-valid-module", "C02 C05", format!("{}: parse or emit panics", name), wasm, String::new(), String::new())),
     }
     customs(name, wasm, out); determinism(name, wasm, out); config(name, wasm, out); gc(name, wasm, out);
